@@ -318,7 +318,7 @@ claim("C46", FSJ,
       "directory reached, absolute link targets from the host root) and requires the landing inside the base directory or on a "
       "passthrough entry. Hosts: exhaustive over pairs of symbolic links (top-level and nested) x 17 targets (relative, climbing, "
       "absolute guest-style, absolute host paths, chains, loops), a sibling directory whose name extends the base's, files next to "
-      "the base; guest paths: every sequence up to 3 (thorough 4) names over {a, l, f, .., .}, absolute and relative, plus "
+      "the base; guest paths: every sequence up to 3 (thorough: 4 on 40 hosts) names over {a, l, f, .., .}, absolute and relative, plus "
       "hand-written ones (regexp-prefix and exact passthrough with '..', '//', Windows separators and drive prefixes). APIs: "
       "FileSystem.resolve_path (str, bytes, follow_link=False), the file really opened by FileSystem.open_ (read from "
       "/proc/self/fd), unix_to_sbpath, windows_to_sbpath.",
@@ -410,3 +410,13 @@ claim("C32", LYJ,
       "TLC; x86-32; one recorded known finding (tight ranges fail on the pessimistic size reservation), confirmed per program by the "
       "roomy-range run",
       "DESIGN.md 5/C32", "Layout")
+
+claim("C41", IRJ,
+      "Random x86-32 functions (conditional structure, some counted loops, loads from cells that are never stored) run once under "
+      "DSEPathConstraint (branch-coverage strategy, six general registers symbolized, python jitter): a DriftException is a "
+      "violation. Every (branch, model) in new_solutions becomes an initial state of the TLA+ reference execution of the function's "
+      "lifted IR (IRMachine.RunGraph over the same memory content as the emulator's), which must enter the branch's destination "
+      "block right after the block holding the branch (IRJudge.TakesBranch). A self-test feeds the first run's own inputs in place "
+      "of a solution and requires the rejection.",
+      "TLC; registers symbolized, memory concrete; functions without calls; the concrete execution of a new input is IRMachine.tla's",
+      "DESIGN.md 5/C41", "IRJudge")
